@@ -63,7 +63,7 @@ def run_tree(rec, tier, seed, ti, spec, t):
             continue
         rec.count("classes-wu")
         vg = ValueGen(it, rng, "wu")
-        for j in range(VALUES[tier]):
+        for j in range(VALUES[tier] * (4 if ti < 0 else 1)):  # the hand-written tree gets four times the values
             obj = vg.message(name)
             one(rec, t, ti, name, obj)
 
